@@ -236,6 +236,34 @@ def run(ctx):
                                f"in a process that has seen every protocol it gives {inproc.get(key)}",
                                dict(kind="order", order=order, archive=key)))
                 break
+    # ---- the registry is live: a kind registered after archives of that protocol were loaded is found, one that is removed
+    # again is refused again (skops' own tests register loaders this way)
+    import skops.io._audit as _A
+    from skops.io._general import ListNode as _ListNode
+
+    late = 0
+    for proto in sorted({0, 1, PROTOCOL}):
+        key = ("VerifLateNode", proto)
+        sch = {"__class__": "list", "__module__": "builtins", "__loader__": "VerifLateNode", "__id__": 1, "content": [],
+               "protocol": proto, "_skops_version": "0"}
+        data = ioarch.make_zip(sch, {})
+        before_reg = ioarch.impl_load(data, None)
+        _A.NODE_TYPE_MAPPING[key] = _ListNode
+        try:
+            while_reg = ioarch.impl_load(data, None)
+        finally:
+            del _A.NODE_TYPE_MAPPING[key]
+        after_reg = ioarch.impl_load(data, None)
+        late += 3
+        rep_ = dict(kind="late-registration", protocol=proto, schema=sch)
+        if before_reg["outcome"] == "ok":
+            ofails.append((f"unregistered-loader: ('VerifLateNode', {proto}) is not registered but the archive loaded", rep_))
+        if while_reg["outcome"] != "ok":
+            ofails.append((f"registered-loader-not-found: ('VerifLateNode', {proto}) was registered after other archives of protocol {proto} "
+                           f"had been loaded in this process and is not found: {while_reg}", rep_))
+        if after_reg["outcome"] == "ok":
+            ofails.append((f"unregistered-loader: ('VerifLateNode', {proto}) was removed from the registry again but the archive still loads", rep_))
+    evaluations += late
     for k in set(ctx.known):
         f = next(f for f in findings if f["key"] == k)
         print(f"KNOWN-FINDING: property=C08 {k}: {f['what']}", flush=True)
